@@ -59,10 +59,6 @@ def run(ctx):
     _merge_sort(ctx, prog.func("mokapot.utils.merge_sort"))
     _first_seen_wins(ctx, prog.func(AC))
     _rollup_levels(ctx, prog.func("mokapot.brew_rollup.do_rollup"))
-    # the rollup competes exactly the rows of its inputs: files the tool
-    # wrote itself in an earlier run are not inputs (shared with C09)
-    from .c09 import _check_rollup_filter
-    _check_rollup_filter(ctx, "C03b-rollup-inputs-only")
     _dedup_switch(ctx)
     _chunk_dedup_keeps_best(ctx)
     _cli_mapping(ctx)
@@ -71,6 +67,12 @@ def run(ctx):
     chunk_size_agreement(ctx, "C03e-chunk-size-agreement")
     header_data_agreement(ctx, "C03e-header-matches-rows")
     _collections_independent(ctx, prog.func(AC))
+    # the rollup competes exactly the rows of its inputs: files the tool
+    # wrote itself in an earlier run are not inputs (shared with C09; last,
+    # so that a form this clause cannot read does not hide what the other
+    # clauses of this property found)
+    from .c09 import _check_rollup_filter
+    _check_rollup_filter(ctx, "C03b-rollup-inputs-only")
 
 
 # ------------------------------------------------------------------ a
